@@ -351,15 +351,56 @@ def quantities(chk, rng):
                             chk.diverge({"clause": "quantity-unit-part", "type": T.__name__, "uspec": uspec}, {"spec": mspec + uspec, "text": text, "unit_text": utext, "magnitude_text": want})
                 if T is float and un == "meter" and m == 1234.5678:
                     sup = str.maketrans("-0123456789", "⁻⁰¹²³⁴⁵⁶⁷⁸⁹")
-                    for k in range(-19, 20):
-                        txt = format(ureg.Quantity(1.5 * 10.0 ** k, "meter"), ".1e~P")
-                        exp_txt = "1.5×10" + str(k).translate(sup) + " m" if k != 0 else None
+                    for k in list(range(-19, 20)) + [-k2 - 100 for k2 in range(-19, 20)]:
+                        sgn = 1.0
+                        if k <= -81:                      # the same decades with a negative magnitude
+                            k, sgn = -(k + 100), -1.0
+                        try:
+                            txt = format(ureg.Quantity(sgn * 1.5 * 10.0 ** k, "meter"), ".1e~P")
+                        except Exception as e:
+                            chk.diverge({"clause": "format-raises", "type": "float", "exc": type(e).__name__, "src": "power-of-ten"}, {"k": k})
+                            continue
+                        exp_txt = ("-" if sgn < 0 else "") + "1.5×10" + str(k).translate(sup) + " m" if k != 0 else None
                         if exp_txt and txt != exp_txt and abs(float("%.1e" % (1.5 * 10.0 ** k)) - 1.5 * 10.0 ** k) < 1e-3 * 10.0 ** k:
                             chk.diverge({"clause": "pretty-power-of-ten"}, {"k": k, "expected": exp_txt, "observed": txt})
+                if T is float and un == "meter" and m == 1234.5678:
+                    # complex magnitudes: each part keeps its own power of ten
+                    sup = str.maketrans("-0123456789", "⁻⁰¹²³⁴⁵⁶⁷⁸⁹")
+                    for z in (1e20 + 2e-5j, -3.5e-7 + 4e12j, 2.5e3 - 1e3j):
+                        plain = format(z, ".2e")
+                        for uspec, mk in (("P", lambda sg, d: "×10" + (("-" if sg == "-" else "") + str(int(d))).translate(sup)),
+                                          ("H", lambda sg, d: "×10<sup>%s%d</sup>" % ("-" if sg == "-" else "", int(d)))):
+                            want = re.sub(r"e([+-])(\d+)", lambda mm: mk(mm.group(1), mm.group(2)), plain)
+                            chk.case(("complex-magnitude", str(z), uspec))
+                            try:
+                                got = format(ureg.Quantity(z, "meter"), ".2e~" + uspec)
+                            except Exception as e:
+                                chk.diverge({"clause": "format-raises", "type": "complex", "exc": type(e).__name__, "src": "quantity"}, {"z": str(z), "spec": ".2e~" + uspec})
+                                continue
+                            if got != want + " m":
+                                chk.diverge({"clause": "magnitude-format", "type": "complex"}, {"z": str(z), "spec": ".2e~" + uspec, "expected": want + " m", "observed": got})
                 if T is float and un in ("meter", "newton * meter ** 2"):
-                    a, b = format(q, "#~P"), format(q.to_compact(), "~P")
+                    try:
+                        a, b = format(q, "#~P"), format(q.to_compact(), "~P")
+                    except Exception as e:
+                        chk.diverge({"clause": "format-raises", "type": "float", "exc": type(e).__name__, "src": "compact-modifier"}, {"q": str(q)})
+                        continue
                     if a != b:
                         chk.diverge({"clause": "compact-modifier"}, {"q": str(q), "#": a, "to_compact": b})
+        # the registry's default_format is what an empty spec means - '#' and '~' included - for every numeric type
+        for dflt in ("~P", "#~P", ".3f~", "#.4g~C", "#D", "H", "#"):
+            u2 = pint.UnitRegistry(non_int_type=T) if T is not float else pint.UnitRegistry()
+            u2.formatter.default_format = dflt
+            for m in mags[:3]:
+                q2 = u2.Quantity(m * 1000 if T is not F else m * 1000, "meter")
+                chk.case(("default-format", T.__name__, dflt, str(m)))
+                try:
+                    a, b, c = str(q2), format(q2, ""), format(q2, dflt)
+                except Exception as e:
+                    chk.diverge({"clause": "format-raises", "type": T.__name__, "exc": type(e).__name__, "src": "default-format", "default_format": dflt}, {"default_format": dflt, "q": repr(q2)})
+                    continue
+                if not (a == b == c):
+                    chk.diverge({"clause": "default-format", "type": T.__name__}, {"default_format": dflt, "str": a, "empty-spec": b, "explicit": c})
 
 
 def replay(chk, rec):
